@@ -23,9 +23,9 @@ const (
 	SigFreshOffered        = "fresh-pod-offered-node-without-free-ip"
 	SigHolderNotOffered    = "holder-not-offered-routable-node"
 	SigHolderOfferedNoFree = "holder-offered-node-without-free-ip"
-	// suffix of the signatures above when the pod requests no ranges and its key owns several addresses: getSubnet's
-	// ipInfos[0] and allocateIP's ipInfos[:1] are independent map-order choices (known finding)
-	SufMultiOwner = ":no-ranges-multi-owner"
+	// a pod without requested ranges must be bound with the LOWEST address its key holds (ByKeyAndIPRanges(key, nil) is
+	// sorted since the fix of the no-ranges multi-owner defect)
+	SigNotLowest = "bound-ip-not-lowest-held"
 )
 
 type filterObs struct {
@@ -45,6 +45,17 @@ type monState struct {
 	prev  []plugin.IPAMRec // IPAM dump after the previous op
 	last  *filterObs
 	stats map[string]int // how often each statement of the property was actually evaluated
+	// observed `first` choices that are not the lowest address of the key (admissibility refinement choiceIsMin of
+	// Galaxy/Model/PluginC06.lean): reported as correspondence disagreements
+	notMin []string
+}
+
+// ChoiceDisagreements returns the observed choices that violate choiceIsMin.
+func ChoiceDisagreements(w *plugin.World) []string {
+	if st, _ := w.Mon["c06"].(*monState); st != nil {
+		return st.notMin
+	}
+	return nil
 }
 
 // MonitorStats returns the evaluation counters of the monitor for the world.
@@ -96,9 +107,11 @@ func heldBy(dump []plugin.IPAMRec, key string, rss [][][2]uint32) (held []uint32
 		}
 	}
 	if len(rss) == 0 {
+		// ByKeyAndIPRanges(key, nil) is sorted ascending: ipInfos[0] / ipInfos[:1] are the lowest address (dump is ascending)
 		for _, r := range dump {
 			if !r.Free && r.Key == key {
 				held = append(held, r.IP)
+				break
 			}
 		}
 		return
@@ -203,6 +216,12 @@ func Monitor(w *plugin.World, step int) []hx.Violation {
 			wf: WFConf(pools) && WFRequest(rss), deflt: defaultPolicy(pod), held: held}
 		obs.multi = len(rss) == 0 && owned >= 2
 		obs.fresh = obs.deflt && len(held) == 0 && owned == 0
+		if obs.multi {
+			st.stats["monitor:no-ranges-multi-owner-filter"]++
+			if f[4] != "-" && f[4] != fmt.Sprint(held[0]) {
+				st.notMin = append(st.notMin, fmt.Sprintf("step %d filter: observed first address %s, lowest address of the key is %d", step, f[4], held[0]))
+			}
+		}
 		if f[3] != "-" {
 			obs.cand = strings.Split(f[3], ",")
 		}
@@ -219,7 +238,7 @@ func Monitor(w *plugin.World, step int) []hx.Violation {
 		if len(held) > 0 {
 			st.stats["monitor:holder-filter-checked"]++
 		}
-		if obs.deflt && !obs.multi {
+		if obs.deflt {
 			if obs.fresh {
 				st.stats["monitor:fresh-exactness-checked"]++
 			} else {
@@ -227,9 +246,6 @@ func Monitor(w *plugin.World, step int) []hx.Violation {
 			}
 		}
 		suf := ""
-		if obs.multi {
-			suf = SufMultiOwner
-		}
 		free := freeSet(st.prev)
 		for _, n := range obs.cand {
 			nip, known := nodeIPOf(w.Conf, n)
@@ -248,7 +264,7 @@ func Monitor(w *plugin.World, step int) []hx.Violation {
 			}
 			// "of the candidate nodes a fresh default-policy pod is offered exactly those that still have a free
 			// routable IP" (and the same exactness for a default-policy pod that holds some of its ranges' addresses)
-			if !obs.deflt || obs.multi {
+			if !obs.deflt {
 				continue
 			}
 			want := true
@@ -328,10 +344,21 @@ func Monitor(w *plugin.World, step int) []hx.Violation {
 			return out
 		}
 		suf := ""
-		if last.multi {
-			suf = SufMultiOwner
-		}
 		cls := resClass(res)
+		if last.multi && len(last.held) == 1 {
+			st.stats["monitor:no-ranges-multi-owner-bind"]++
+			if f[5] != "-" && f[5] != fmt.Sprint(last.held[0]) {
+				st.notMin = append(st.notMin, fmt.Sprintf("step %d bind: observed first address %s, lowest address of the key is %d", step, f[5], last.held[0]))
+			}
+			if cls == "ok" {
+				hs := plugin.HandedIPs(tp)
+				if len(hs) != 1 || hs[0][0] != last.held[0] {
+					out = append(out, hx.Violation{Signature: SigNotLowest, What: fmt.Sprintf(
+						"pod %s/%s requests no ranges and its key holds several addresses, lowest %s; bind wrote %v", f[1], f[2],
+						plugin.IPStr(last.held[0]), hs)})
+				}
+			}
+		}
 		if last.approved[node] {
 			st.stats["monitor:bind-after-approval-checked:"+cls]++
 			// "if filter returns a node and nothing else changes, bind on that node succeeds (or waits for the delete event)"
